@@ -4,6 +4,7 @@ import json,subprocess
 props=[json.loads(l) for l in open('/verif/properties.jsonl')]
 NOTE="trusted: Go toolchain, the small reference model under internal/, the enumeration code; bounds/alphabets as stated in the evidence file"
 claimed={
+"C01":("Full product of one-controller scenarios (prefix x route spellings x 5 verbs x hidden/deprecated x tags, ~1.5k quick / 2.9k thorough) plus every subset of <=2 (thorough 3) of 14 multi-controller/file/package layout deviations; every scenario is run through the real pipeline and both spec generators, packed with others and (quick: covering subset, thorough: all) alone, and its documented operations are compared with a reference route model; packed and single projections must agree.","4.C01","exhaustive enumeration of a bounded scenario space on the real pipeline against a reference route model, with a packed-vs-single differential"),
 "C15":("Every ordered route list up to length 3 over a 170-entry template alphabet plus all raw-spelling pairs (quick) / plus length 4-6 over smaller alphabets (thorough) is run through the real paths.FindConflicts and compared with the statement's overlap relation: soundness, completeness and therefore order-independence of the flagged set hold for every list in the bound.","4.C15","exhaustive enumeration of bounded route lists on the real function against a reference overlap model"),
 "C16":("Every line of a bounded annotation grammar (names x values x 19 JSON5 literals x separators x descriptions, ~12.6k lines) and every comment block up to 4 (thorough 6) lines over 7 line kinds goes through go/parser and the real annotations.NewAnnotationHolder and is compared with a left-to-right string-aware reference parser.","4.C16","exhaustive enumeration of a bounded comment grammar on the real parser against a reference parser"),
 "C17":("Explicit-state breadth-first search over all operation histories of the real SymbolGraph (143 ops over 2 keys x 2 versions to depth 3 quick; 3 keys and depth 4/5 thorough), de-duplicated on a canonical dump of the whole private state, all dependents orders of every RemoveNode; after every transition all public views are compared with a set-of-nodes/set-of-edges model.","4.C17","explicit-state BFS over the real object with canonical state hashing and a reference set model; order choices explored through a build-tag hook"),
